@@ -68,7 +68,10 @@ pub fn observe(inst: &Value, modes: &[String], ctx: &mut Ctx, seed: u64) -> Valu
     let has = |m: &str| modes.iter().any(|x| x == m || x.starts_with(&format!("{m}:")));
     let modeval = |m: &str, d: usize| modes.iter().find_map(|x| x.strip_prefix(&format!("{m}:")).map(|v| v.parse().unwrap())).unwrap_or(d);
     let mut obs = json!({"id": inst["id"]});
-    let schema = match ctx.schema(inst["sdl"].as_str().unwrap()) {
+    // `freshSchema`: the schema is parsed for this instance alone and dropped afterwards (C14: results must not depend on what the process
+    // compiled before, nor on an earlier schema having lived at the same address)
+    let fresh = inst.get("freshSchema").and_then(|x| x.as_bool()).unwrap_or(false);
+    let schema = match if fresh { Ctx::new().schema(inst["sdl"].as_str().unwrap()) } else { ctx.schema(inst["sdl"].as_str().unwrap()) } {
         Ok(s) => s,
         Err(e) => { obs["compile"] = json!({"t":"schema","err": e}); return obs; }
     };
